@@ -63,6 +63,9 @@ def job_step(kind, n, op):
                         f.metadata.pop('order_label', None)
                         if lab[k]:
                             f.metadata['order_label'] = 'Z'
+                    for f in bad:
+                        if hasattr(f, 'metadata'):
+                            f.metadata.pop('order_label', None)
                     cad = CAD.OrderedCadence(order=ORDER) if kind == 'ordered' else CAD.Cadence()
                     cad.frames = [ok[s] for s in st]
                     ref = list(cad.frames)
@@ -135,6 +138,8 @@ def judge(kind, op, o, i, ok):
                 return f"{op}: an incompatible / non-frame object was accepted ({type(v).__name__})"
         if not same(cad.frames, ref):
             return f"{op}: rejected object but the list is not unchanged"
+        if o['meta_before'] is not None and dict(v.metadata) != o['meta_before']:
+            return f"{op}: the rejected frame was modified all the same: it now carries the label {v.metadata.get('order_label')!r}"
         return None
     # model
     model_exc = None
